@@ -349,7 +349,9 @@ class Derivation(Constraint):
                             ok = False
                             break
                     else:
-                        new_x = x + ((t + delta) * window.stride * get_trial_size(x) + 1)
+                        # `t` counts window applications, which are `stride` trials apart, while
+                        # `delta` is an offset in trials that does not scale with the stride
+                        new_x = x + ((t * window.stride + delta) * get_trial_size(x) + 1)
                         if new_x <= 0:
                             ok = False
                             break
